@@ -1,0 +1,159 @@
+//! Verification hooks (only compiled with `--cfg cfr_verif`)
+//!
+//! These hooks let an external harness pin or observe the random draws of the sampled solvers,
+//! call the private categorical sampler with a chosen uniform variate, and perturb thread
+//! schedules. Nothing here is compiled or reachable without the `cfr_verif` cfg flag.
+use std::sync::atomic::{AtomicU64, AtomicUsize, Ordering};
+use std::sync::{Mutex, RwLock};
+
+/// The kind of infoset a draw is made for
+#[derive(Debug, Clone, Copy, PartialEq, Eq, Hash)]
+pub enum Kind {
+    /// a chance infoset
+    Chance,
+    /// a player infoset sampled by the external method
+    Player,
+}
+
+/// A recorded sampling event
+#[derive(Debug, Clone)]
+pub struct Event {
+    /// the kind of infoset
+    pub kind: Kind,
+    /// allocation index of the infoset cell (since the last [reset_ids])
+    pub id: usize,
+    /// how often the cell had been reset / advanced before this draw
+    pub pass: u64,
+    /// the weights presented to the sampler
+    pub weights: Vec<f64>,
+    /// the index drawn
+    pub result: usize,
+    /// whether the draw came from the installed sampler instead of the production one
+    pub overridden: bool,
+}
+
+/// A replacement sampler: `(kind, id, pass, weights) -> Some(index)` to override the draw
+pub type Sampler = Box<dyn Fn(Kind, usize, u64, &[f64]) -> Option<usize> + Send + Sync>;
+
+static SAMPLER: RwLock<Option<Sampler>> = RwLock::new(None);
+static LOG: Mutex<Option<Vec<Event>>> = Mutex::new(None);
+static NEXT_CHANCE: AtomicUsize = AtomicUsize::new(0);
+static NEXT_PLAYER: AtomicUsize = AtomicUsize::new(0);
+static YIELD_SEED: AtomicU64 = AtomicU64::new(0);
+static YIELD_COUNT: AtomicU64 = AtomicU64::new(0);
+
+/// Install (or remove) the replacement sampler
+pub fn set_sampler(sampler: Option<Sampler>) {
+    *SAMPLER.write().unwrap() = sampler;
+}
+
+/// Start (`true`) or stop (`false`) recording sampling events; returns what was recorded
+pub fn set_recording(on: bool) -> Vec<Event> {
+    let mut log = LOG.lock().unwrap();
+    let old = log.take().unwrap_or_default();
+    if on {
+        *log = Some(Vec::new());
+    }
+    old
+}
+
+/// Restart the allocation indices of sampling cells
+pub fn reset_ids() {
+    NEXT_CHANCE.store(0, Ordering::SeqCst);
+    NEXT_PLAYER.store(0, Ordering::SeqCst);
+}
+
+/// Set the seed of the schedule perturbation (zero disables it)
+pub fn set_yield_seed(seed: u64) {
+    YIELD_SEED.store(seed, Ordering::SeqCst);
+}
+
+pub(crate) fn next_id(kind: Kind) -> usize {
+    match kind {
+        Kind::Chance => NEXT_CHANCE.fetch_add(1, Ordering::SeqCst),
+        Kind::Player => NEXT_PLAYER.fetch_add(1, Ordering::SeqCst),
+    }
+}
+
+pub(crate) fn draw(kind: Kind, id: usize, pass: u64, weights: &[f64]) -> Option<usize> {
+    let res = SAMPLER
+        .read()
+        .unwrap()
+        .as_ref()
+        .and_then(|samp| samp(kind, id, pass, weights));
+    if let Some(result) = res {
+        record(kind, id, pass, weights, result, true);
+    }
+    res
+}
+
+pub(crate) fn record(
+    kind: Kind,
+    id: usize,
+    pass: u64,
+    weights: &[f64],
+    result: usize,
+    overridden: bool,
+) {
+    if let Some(log) = LOG.lock().unwrap().as_mut() {
+        log.push(Event {
+            kind,
+            id,
+            pass,
+            weights: weights.to_vec(),
+            result,
+            overridden,
+        });
+    }
+}
+
+/// Called on entry of the worker-side recursions; perturbs the schedule when a seed is set
+pub(crate) fn yield_point() {
+    let seed = YIELD_SEED.load(Ordering::Relaxed);
+    if seed != 0 {
+        let count = YIELD_COUNT.fetch_add(1, Ordering::Relaxed);
+        let mut x = seed ^ count.wrapping_mul(0x9E37_79B9_7F4A_7C15);
+        x ^= x >> 33;
+        x = x.wrapping_mul(0xFF51_AFD7_ED55_8CCD);
+        x ^= x >> 33;
+        match x % 8 {
+            0 | 1 => std::thread::yield_now(),
+            2 => std::thread::sleep(std::time::Duration::from_micros(x >> 60)),
+            _ => (),
+        }
+    }
+}
+
+struct FixedRng(u64);
+
+impl rand::RngCore for FixedRng {
+    fn next_u32(&mut self) -> u32 {
+        (self.0 >> 32) as u32
+    }
+
+    fn next_u64(&mut self) -> u64 {
+        self.0
+    }
+
+    fn fill_bytes(&mut self, dest: &mut [u8]) {
+        for (byte, val) in dest.iter_mut().zip(self.0.to_le_bytes().iter().cycle()) {
+            *byte = *val;
+        }
+    }
+
+    fn try_fill_bytes(&mut self, dest: &mut [u8]) -> Result<(), rand::Error> {
+        self.fill_bytes(dest);
+        Ok(())
+    }
+}
+
+/// Run the private categorical sampler with the uniform variate `bits / 2^53` (`bits < 2^53`)
+///
+/// `rand`'s standard `f64` distribution maps a `u64` to `(x >> 11) * 2^-53`, so the generator
+/// returns `bits << 11`; the variate is returned alongside the sampled index.
+pub fn categorical(probs: &[f64], bits: u64) -> (usize, f64) {
+    use rand::Rng;
+    let variate: f64 = FixedRng(bits << 11).gen();
+    let index = crate::solve::categorical_sample(probs, &mut FixedRng(bits << 11));
+    (index, variate)
+}
